@@ -367,7 +367,9 @@ def gen_schedule(rng, max_clients=5, max_len=40):
     n = rng.randint(3, max_len)
     steps, connected, failing, ever = [], [], set(), 0
     pending = 0
-    style = rng.weighted([("mixed", 6), ("lazy_loop", 2), ("eager_loop", 2), ("faulty", 3)])
+    style = rng.weighted([("mixed", 6), ("lazy_loop", 2), ("eager_loop", 2), ("faulty", 3), ("recovery", 3)])
+    if style == "recovery":
+        return gen_recovery_schedule(rng, max_clients)
     for _ in range(n):
         w = [("emit", 6), ("run", 7 if pending else 0.5),
              ("connect", 3 if (ever < max_clients + 3 and len(connected) < max_clients) else 0),
@@ -410,6 +412,57 @@ def gen_schedule(rng, max_clients=5, max_len=40):
     if drained:
         steps += [("run",)] * (pending + 2)
     return steps, drained
+
+
+def gen_recovery_schedule(rng, max_clients=5):
+    """A client whose write fails transiently and that stays connected: connect k clients,
+    emit, SocketFails c, emit(s) with the callbacks run (so that writes to c really fail),
+    SocketRecovers c, then further emits; c is never disconnected and has no later fault.
+    Other clients may come, go and fail meanwhile.  Always drained."""
+    k = rng.randint(1, max_clients)
+    steps = [("connect", c) for c in range(k)]
+    connected, ever = list(range(k)), k
+    victim = rng.randrange(k)
+    pending = 0
+
+    def emits(n, run_prob):
+        nonlocal pending
+        for _ in range(n):
+            steps.append(("emit",))
+            pending += len(connected)
+            while pending and rng.random() < run_prob:
+                steps.append(("run",))
+                pending -= 1
+
+    def churn():
+        nonlocal ever
+        r = rng.random()
+        others = [c for c in connected if c != victim]
+        if r < 0.2 and others:
+            c = rng.choice(others)
+            connected.remove(c)
+            steps.append(("disconnect", c))
+        elif r < 0.35 and others:
+            steps.append(("fail", rng.choice(others), "patch", "RuntimeError"))
+        elif r < 0.5 and len(connected) < max_clients:
+            steps.append(("connect", ever))
+            connected.append(ever)
+            ever += 1
+
+    emits(rng.randint(0, 3), 0.8)
+    steps.append(("fail", victim, rng.choice(["patch", "patch", "noconn"]),
+                  rng.choice(["WebSocketClosedError", "StreamClosedError", "RuntimeError", "OSError", "BufferError", "KeyError"])))
+    emits(rng.randint(1, 3), 0.9)
+    churn()
+    if rng.random() < 0.8:      # usually every failing write has happened before the recovery
+        steps.extend([("run",)] * pending)
+        pending = 0
+    steps.append(("recover", victim))
+    for _ in range(rng.randint(1, 4)):
+        emits(rng.randint(1, 3), 0.7)
+        churn()
+    steps.extend([("run",)] * (pending + 2))
+    return steps, True
 
 
 def gen_repeat_schedule(rng):
@@ -721,6 +774,20 @@ def py_sent(steps, c):
     return out
 
 
+def recovered_and_connected(steps, c):
+    """c's last fault step is a recovery, c is connected there, and events are emitted later."""
+    last = max((k for k, st in enumerate(steps) if st[0] in ("disconnect", "fail", "recover") and st[1] == c), default=None)
+    if last is None or steps[last][0] != "recover":
+        return False
+    conn = False
+    for st in steps[:last]:
+        if st[0] == "connect" and st[1] == c:
+            conn = True
+        elif st[0] == "disconnect" and st[1] == c:
+            conn = False
+    return conn and any(st[0] == "emit" for st in steps[last:])
+
+
 def is_subseq(a, b):
     it = iter(b)
     return all(any(x == y for y in it) for x in a)
@@ -744,6 +811,29 @@ def settled_py_monitors(steps, drained, obs):
         if drained and healthy and log != sent and all(i >= 0 for i in log):
             bad.append(("T2_isolation_complete", f"healthy client received {log} but {sent} were emitted while it was connected",
                         {"client": c}))
+        # T1 completeness after a recovery (mirror of Broadcast.t1_recovered_ok): the client's
+        # last fault step is a recovery while it is still connected => its socket works from
+        # there on, and once the loop has drained its log must END with every event emitted
+        # after that recovery
+        if drained and all(i >= 0 for i in log):
+            last = max((k for k, st in enumerate(steps) if st[0] in ("disconnect", "fail", "recover") and st[1] == c),
+                       default=None)
+            if last is not None and steps[last][0] == "recover":
+                conn = False
+                for st in steps[:last]:
+                    if st[0] == "connect" and st[1] == c:
+                        conn = True
+                    elif st[0] == "disconnect" and st[1] == c:
+                        conn = False
+                if conn:
+                    n_before = sum(1 for st in steps[:last] if st[0] == "emit")
+                    n_all = sum(1 for st in steps if st[0] == "emit")
+                    must = list(range(n_before, n_all))
+                    if must and log[len(log) - len(must):] != must:
+                        bad.append(("T1_complete_after_recovery",
+                                    f"client {c} is connected and its socket works again after step {last}, "
+                                    f"but of the events {must} emitted afterwards it received {[i for i in log if i >= n_before]}",
+                                    {"client": c, "log": log, "recovered_at_step": last}))
     # T3: after a client disconnected no callback is ever scheduled for it again
     connected, ei = set(), 0
     for st in steps:
@@ -789,6 +879,7 @@ def valid_schedule(steps):
 
 
 _shrunk = [0]
+NEEDS_DRAIN = ("T2_isolation_complete", "T1_complete_after_recovery")
 
 
 def report_settled(chk, rig, steps, drained, repeats, obs):
@@ -808,15 +899,17 @@ def report_settled(chk, rig, steps, drained, repeats, obs):
                 o = run_settled(rig, vlib.Rng(0, "c17-shrink"), cand, repeats=repeats)
             except Exception:  # noqa: BLE001
                 return False
-            return any(m == mon0 for m, _w, _d in settled_py_monitors(cand, False, o) ) if mon0 != "T2_isolation_complete" \
-                else any(m == mon0 for m, _w, _d in settled_py_monitors(cand + [("run",)] * 40, True,
-                                                                          run_settled(rig, vlib.Rng(0, "c17-shrink"), cand + [("run",)] * 40, repeats=repeats)))
+            if mon0 not in NEEDS_DRAIN:
+                return any(m == mon0 for m, _w, _d in settled_py_monitors(cand, False, o))
+            full = cand + [("run",)] * 40
+            o = run_settled(rig, vlib.Rng(0, "c17-shrink"), full, repeats=repeats)
+            return any(m == mon0 for m, _w, _d in settled_py_monitors(full, True, o))
         try:
             small = vlib.shrink_list(steps, fails, max_steps=80)
-            if mon0 == "T2_isolation_complete":
+            if mon0 in NEEDS_DRAIN:
                 small = small + [("run",)] * 40
             o2 = run_settled(rig, vlib.Rng(0, "c17-shrink"), small, repeats=repeats)
-            bad2 = settled_py_monitors(small, drained or mon0 == "T2_isolation_complete", o2)
+            bad2 = settled_py_monitors(small, drained or mon0 in NEEDS_DRAIN, o2)
             if any(m == mon0 for m, _w, _d in bad2):
                 steps, obs, bad = small, o2, bad2
         except Exception as e:  # noqa: BLE001
@@ -859,6 +952,8 @@ def settled_stage(chk, rig, n_cases):
             if kk in kinds:
                 chk.dist(f"settled:has-{kk}")
         chk.dist("settled:drained" if drained else "settled:not-drained")
+        if drained and any(recovered_and_connected(steps, c) for c in {st[1] for st in steps if st[0] == "recover"}):
+            chk.dist("settled:client-recovered-still-connected-then-emits")
         delivered = sum(len(v) for v in obs["logs"].values())
         nontrivial = n_emit >= 2 and n_cl >= 2 and delivered >= 2 and ({"disconnect", "fail"} & kinds)
         chk.count(1, nontrivial_key=json.dumps(steps) if nontrivial else None)
@@ -885,16 +980,18 @@ def settled_stage(chk, rig, n_cases):
         "Definition mon1 (c : cases_ty) : bool := let '(l, logs, tg, known, drained) := c in\n"
         "  forallb (fun p => t1_log_ok (fst p) l (snd p)) logs.\n"
         "Definition mon2 (c : cases_ty) : bool := let '(l, logs, tg, known, drained) := c in\n"
-        "  negb drained || forallb (fun p => t1_complete_ok (fst p) l (snd p)) logs.\n")
+        "  negb drained || forallb (fun p => t1_complete_ok (fst p) l (snd p)) logs.\n"
+        "Definition mon3 (c : cases_ty) : bool := let '(l, logs, tg, known, drained) := c in\n"
+        "  negb drained || forallb (fun p => t1_recovered_ok (fst p) l (snd p)) logs.\n")
     per = 100
     shards = [terms[i: i + per] for i in range(0, len(terms), per)]
     texts = [vlib.COQ_HEADER + COQ_IMPORTS + body + "Definition cases : list cases_ty :=\n " + g_list(sh) + ".\n"
              + "Eval vm_compute in mismatches ok cases.\nEval vm_compute in mismatches mon1 cases.\n"
-               "Eval vm_compute in mismatches mon2 cases.\n" for sh in shards]
+               "Eval vm_compute in mismatches mon2 cases.\nEval vm_compute in mismatches mon3 cases.\n" for sh in shards]
     ok = True
     for si, (rc, out) in enumerate(vlib.coq_eval_many(AREA, texts)):
         lists = vlib.parse_all_lists(out)
-        if rc != 0 or len(lists) != 3:
+        if rc != 0 or len(lists) != 4:
             ok = False
             chk.corr_failure("broadcast", {"shard": si, "error": "coq evaluation failed"}, out[-1500:])
             continue
@@ -903,7 +1000,8 @@ def settled_stage(chk, rig, n_cases):
             steps, drained, obs = rows[si * per + i]
             chk.corr_failure("broadcast", {"steps": steps, "drained": drained},
                              {"logs": obs["logs"], "emit_targets": obs["emit_targets"]})
-        for mi, mon in ((1, "T1_exactly_once_in_order"), (2, "T2_isolation_complete")):
+        for mi, mon in ((1, "T1_exactly_once_in_order"), (2, "T2_isolation_complete"),
+                        (3, "T1_complete_after_recovery")):
             for i in lists[mi][:10]:
                 steps, drained, obs = rows[si * per + i]
                 chk.monitor_failure(mon, {"monitor": mon, "mode": "settled"},
